@@ -90,8 +90,36 @@ class Check(core.CheckBase):
                 if composed not in seen:
                     seen.add(composed)
                     result.append(composed)
+            for composed in self.reference_records().get(name, []):
+                if composed not in seen:
+                    seen.add(composed)
+                    result.append(composed)
         self.records[name] = result
         return result
+
+    def reference_records(self):
+        """Records written by the independent reference encoders (vmon/ref) for generator-built values: valid by
+        construction, so they are NOT filtered by what the library accepts (header forms and sizes the library's own
+        compose never produces: SSL 2.0 bodies around 2^14, padded three-byte headers, long BER lengths)."""
+        if not hasattr(self, '_reference_records'):
+            import importlib  # pylint: disable=import-outside-toplevel
+            wanted = set(name for names in layers().values() for name in names)
+            found = {}
+            for family in ('tls', 'ssh', 'opp'):
+                rng = random.Random('C04/reference/%s' % family)
+                for pair in importlib.import_module('vmon.gen.' + family).generate(rng, 1500):
+                    name = inventory.class_name(pair.cls)
+                    if name in wanted and len(found.setdefault(name, [])) < 24 and pair.wire not in found[name]:
+                        # a few per (class, label) so that rare labels (padded, large) are not crowded out
+                        labels = self.notes.setdefault('reference_labels', {})
+                        count = labels.get((name, pair.label), 0)
+                        if count < 6:
+                            labels[(name, pair.label)] = count + 1
+                            found[name].append(pair.wire)
+            self.notes.pop('reference_labels', None)
+            self._reference_records = found
+            self.stats['reference_records'] += sum(len(wires) for wires in found.values())
+        return self._reference_records
 
     def synthesized(self, name):
         rng = random.Random('C04/synth/%s' % name)
